@@ -270,6 +270,8 @@ def run(rep, tier, seed):
         return False, None, None, None
     for cs2, t2 in approx_contracts(tier):
         run_contracts(rep, cs2, t2, tier=tier, pid="C10", replayers=[(r"PersLandscape", _replay_classes)])
+    rep.assume("A8 real-analysis facts instantiated at the segment's end values: exp(c log u) = u^c for u > 0, u^e v^e = (uv)^e, a^(e+1) = a a^e, a^e >= 0, monotonicity in the base; D27 log1p / expm1 as real functions",
+               "D25 legacy iteration protocol, D26 none here; D12 sorted (exact sup norm through max over a chain)")
     rep.assume("calculus: the closed form seg_int is the integral of |y|^p over a linear segment (checked numerically against scipy quad in the stand-in)",
                "L11 sup of a piecewise-linear function is attained at a breakpoint", "L15 Minkowski (norm laws), L16 landscape stability - sampled only")
     _standin(rep, tier, seed)
